@@ -51,15 +51,21 @@ CHECKS = {
   tech="Lean 4 proof (induction over the batch script against an independent spec) + virtual-time "
        "model/implementation differential + outcome monitor", ref="§5 Batcher"),
  "C09": dict(
-  text="Lean theorem C09_cancel_touches_only_the_caller: in the batcher machine a cancel input changes nothing but "
-       "the cancelled caller's entry in `waiting` and its own `cancelled` event (queue, batches, futures, retention, "
-       "timers identical), with C04_outcome for what the others then receive; the machine is tied to the real code "
-       "by a virtual-time differential over programs that cancel any subset of callers while queued / running / "
-       "after the result, with shared keys and fresh calls afterwards; monitor: every non-cancelled caller gets the "
-       "batch function's outcome for its key and nobody stays pending",
-  note=NOTE_COMMON + "Partial: the one-step frame theorem is proved; its lift to whole runs (outcomes of run-with-"
-       "cancels = outcomes of run-without on non-cancelled callers) is not yet a theorem and is covered by the "
-       "differential. Holds only after fix 72f5b5b (F6).",
+  text="Lean theorem C09_cancellations_invisible (Batcher/Cancel.lean + Props.lean): for every set X of callers, every "
+       "starting state and any two programs of timed inputs that differ only in which callers of X are cancelled at "
+       "the cancellation positions (a never-calling id makes the cancel a no-op, so 'cancelled then' vs 'never "
+       "cancelled'), the whole run and the final drain invoke the batch function with the same batches at the same "
+       "instants and answer every caller outside X at the same instants with the same outcomes; queue, batches, "
+       "futures, retention, timers are identical (every machine function commutes with forgetting X: strip_*). "
+       "C09_cancel_touches_only_the_caller is the one-step frame version, C04_outcome says what each batch gives. "
+       "The machine is tied to the real code by a virtual-time differential over programs that cancel any subset "
+       "of callers while queued / running / after the result (same-instant bursts, cancels k loop iterations "
+       "after the call), with shared keys and fresh calls afterwards; monitor: every non-cancelled caller gets "
+       "the batch function's outcome for its key and nobody stays pending",
+  note=NOTE_COMMON + "The run-level theorem compares runs with the same time discretisation (a cancel input also "
+       "lets time advance to its instant; the comparison program keeps a no-op cancel there). That the outcome "
+       "equals the batch function's result for the key is C04_outcome per batch plus the differential. "
+       "Holds only after fix 72f5b5b (F6).",
   tech="Lean 4 proof (frame theorem for the cancel step) + virtual-time differential with cancellation grid",
   ref="§5 Batcher"),
  "C10": dict(
